@@ -2066,3 +2066,121 @@ Qed.
 Theorem single_targets ps : plan_fine ps ->
   follows (ps_faults ps) None [] (fst (fetch_one MSession None ps)) = true.
 Proof. intros [Hnd Hne]. apply fetch_follows; assumption. Qed.
+
+(* ===== part N: single-page acceptor, drop x timeout ===== *)
+Lemma sres_eqb_eq a b : sres_eqb a b = true -> a = b.
+Proof.
+  destruct a as [r1 n1| |e1], b as [r2 n2| |e2]; cbn [sres_eqb]; try discriminate; try reflexivity.
+  - intros H. apply andb_true_iff in H as [H1 H2]. apply (list_eqb_eq N.eqb N.eqb_eq) in H1. subst r2.
+    destruct n1 as [x|], n2 as [y|]; cbn [opt_eqb] in H2; try discriminate; [|reflexivity].
+    apply (list_eqb_eq N.eqb N.eqb_eq) in H2. subst y. reflexivity.
+  - intros H. apply N.eqb_eq in H. subst e2. reflexivity.
+Qed.
+
+(* an accepted single-page observation satisfies the property sentence (every request carries
+   the caller's state), is the model's result, has the model's number of attempts, and its
+   nodes obey the plan rules *)
+Theorem accept_single_sound st ps obs ok nodes_ : accept_single st ps obs ok nodes_ = true ->
+  prop_single_ok st ok = true /\ obs = single_result (snd (single_run st ps)) /\
+  List.length ok = List.length (fst (fetch_one MSession None ps)) /\
+  follows (ps_faults ps) None [] nodes_ = true.
+Proof.
+  unfold accept_single, single_run. destruct (fetch_one MSession None ps) as [ts r]. cbn [fst snd].
+  intros H. apply andb_true_iff in H as [H H3]. apply andb_true_iff in H as [H1 H2].
+  apply sres_eqb_eq in H1. apply (list_eqb_eq key_eqb key_eqb_eq) in H2. subst ok.
+  repeat split; try assumption.
+  - unfold prop_single_ok. apply forallb_forall. intros k Hk. apply in_map_iff in Hk as (t & <- & _).
+    cbn [snd]. apply opt_state_eqb_refl.
+  - apply map_length.
+Qed.
+
+(* the model's own single-page run is accepted (targets of the fiber included) *)
+Theorem accept_single_complete st ps : plan_fine ps ->
+  accept_single st ps (single_result (snd (single_run st ps))) (fst (single_run st ps))
+                (fst (fetch_one MSession None ps)) = true.
+Proof.
+  intros Hp. pose proof (single_targets ps Hp) as F. unfold accept_single, single_run in *.
+  destruct (fetch_one MSession None ps) as [ts r]. cbn [fst snd] in *.
+  rewrite F, (list_eqb_refl key_eqb key_eqb_eq). rewrite andb_true_r, andb_true_r.
+  destruct (single_result r) as [rows next| |e]; cbn [sres_eqb].
+  - rewrite (list_eqb_refl N.eqb N.eqb_eq), opt_state_eqb_refl. reflexivity.
+  - reflexivity.
+  - apply N.eqb_refl.
+Qed.
+
+Theorem drop_timeout_sound m nodes script cnt oi ok :
+  accept_drop_timeout m script cnt oi ok = true -> plans_ok nodes script = true ->
+  exists sc, In sc (early_timeouts script) /\ plans_ok nodes sc = true /\
+    script_pages sc = script_pages script /\
+    (known_ignored m (List.length nodes) sc = false ->
+       prop_drop_ok m (List.length nodes) sc cnt oi ok = true).
+Proof.
+  unfold accept_drop_timeout. intros H Hpl. apply existsb_exists in H as (sc & Hin & Ha).
+  apply andb_true_iff in Ha as [Ha Hc]. exists sc. split; [exact Hin|].
+  destruct (early_timeouts_shape _ _ Hin) as (pre & ps & rest & i & -> & -> & _).
+  split; [apply with_timeout_plans; exact Hpl|]. split; [apply with_timeout_pages|].
+  intros Hk. eapply accept_drop_prop; [exact Ha|apply with_timeout_plans; exact Hpl|exact Hk|].
+  (* the constructor returned a pager in that environment *)
+  unfold ctor_fails, seq_run in Hc. apply negb_true_iff in Hc.
+  unfold accept_drop in Ha.
+  destruct (start m (pre ++ with_timeout i ps :: rest)) as [rq0 [|e|rows p]] eqn:Hst.
+  - discriminate.
+  - cbn [snd] in Hc. discriminate.
+  - eauto.
+Qed.
+
+(* ===== part O: the closed form of a page request's outcome ===== *)
+Lemma ends_at_shift f fs spare used i :
+  ends_at (f :: fs) spare used (S i) =
+  ends_at fs spare (used + (if fault_advances f then 1 else 0)) i.
+Proof.
+  unfold ends_at. cbn [nth_error firstn filter]. destruct (nth_error fs i) as [g|]; [|reflexivity].
+  destruct (terminal g); [reflexivity|].
+  destruct (fault_advances f); cbn [List.length].
+  - replace (used + 1 + List.length (filter fault_advances (firstn i fs)))%nat
+      with (used + S (List.length (filter fault_advances (firstn i fs))))%nat by lia. reflexivity.
+  - replace (used + 0)%nat with used by lia. reflexivity.
+Qed.
+
+Lemma attempts_closed_cons f fs spare used resp :
+  attempts_closed (f :: fs) spare used resp =
+  match ends_at (f :: fs) spare used 0 with
+  | Some o => o
+  | None => attempts_closed fs spare (used + (if fault_advances f then 1 else 0)) resp
+  end.
+Proof.
+  unfold attempts_closed. cbn [List.length seq map first_some].
+  destruct (ends_at (f :: fs) spare used 0); [reflexivity|].
+  rewrite <- seq_shift, map_map.
+  rewrite (map_ext _ (ends_at fs spare (used + (if fault_advances f then 1 else 0)))
+             (fun i => ends_at_shift f fs spare used i)).
+  reflexivity.
+Qed.
+
+Theorem attempts_closed_eq : forall fs left used resp,
+  spec_attempts fs left resp = attempts_closed fs (left + used) used resp.
+Proof.
+  induction fs as [|f fs IH]; intros left used resp; [reflexivity|].
+  rewrite attempts_closed_cons. unfold ends_at. cbn [nth_error firstn filter List.length].
+  rewrite Nat.add_0_r.
+  destruct f as [|e d| |]; cbn [spec_attempts terminal fault_advances andb adv_err].
+  - destruct left as [|l].
+    + cbn [Nat.add]. rewrite Nat.leb_refl. reflexivity.
+    + replace (Nat.leb (S l + used) used) with false by (symmetry; apply Nat.leb_gt; lia).
+      rewrite (IH l (used + 1)%nat resp). f_equal. lia.
+  - destruct d; cbn [terminal fault_advances andb]; try reflexivity.
+    + rewrite (IH left (used + 0)%nat resp). f_equal. lia.
+    + destruct left as [|l].
+      * cbn [Nat.add]. rewrite Nat.leb_refl. reflexivity.
+      * replace (Nat.leb (S l + used) used) with false by (symmetry; apply Nat.leb_gt; lia).
+        rewrite (IH l (used + 1)%nat resp). f_equal. lia.
+  - reflexivity.
+  - rewrite (IH left (used + 0)%nat resp). f_equal. lia.
+Qed.
+
+Theorem spec_page_closed_eq m n ps : spec_page m n ps = spec_page_closed m n ps.
+Proof.
+  destruct m; cbn [spec_page spec_page_closed].
+  - destruct n as [|l]; [reflexivity|]. rewrite (attempts_closed_eq _ l 0%nat). f_equal. lia.
+  - rewrite (attempts_closed_eq _ 0%nat 0%nat). reflexivity.
+Qed.
